@@ -87,20 +87,33 @@ func VH_C10() {
 	if kind == kindBolt {
 		targets = append(append([]string(nil), buckets...), "_meta")
 	}
+	if kind == kindFsMulti {
+		// names that are not buckets but resolve to directories
+		targets = append(append([]string(nil), buckets...), ".", "..", "aaa/d")
+	}
 	b1 := targets[vsym.Choice("bucket", len(targets))]
-	kl := 1 + vsym.Choice("keylen", vsym.Param("maxkeylen", 3))
-	k1 := vsym.String("key", kl)
-	// optionally continue the free bytes with the path of another bucket's key,
-	// so that "../" + "bbb/x" and similar escapes are inside the bound
-	if len(buckets) > 1 {
-		switch vsym.Choice("tail", 3) {
-		case 1:
-			k1 += "bbb/x"
-		case 2:
-			k1 += "aaa/d/y"
+	kl := 0
+	k1 := ""
+	alias := kind == kindFsMulti && b1 != "aaa" && b1 != "bbb"
+	if alias {
+		// a name that is not a bucket: the keys that would alias real objects
+		// if the name were resolved as a directory
+		k1 = []string{"x", "aaa/x", "bbb/d/y", "d/y"}[vsym.Choice("aliaskey", 4)]
+	} else {
+		kl = 1 + vsym.Choice("keylen", vsym.Param("maxkeylen", 3))
+		k1 = vsym.String("key", kl)
+		// optionally continue the free bytes with the path of another bucket's key,
+		// so that "../" + "bbb/x" and similar escapes are inside the bound
+		if len(buckets) > 1 {
+			switch vsym.Choice("tail", 3) {
+			case 1:
+				k1 += "bbb/x"
+			case 2:
+				k1 += "aaa/d/y"
+			}
 		}
 	}
-	if vsym.Param("pathlike", 0) == 1 && vsym.Choice("internalname", 2) == 1 {
+	if !alias && vsym.Param("pathlike", 0) == 1 && vsym.Choice("internalname", 2) == 1 {
 		// names the fs backends use for their own scratch files
 		k1 = []string{".modtime-resolution", "d/.modtime-resolution", ".gofakes3-upload-1-0", "d/.gofakes3-upload-z", "metadata", ".gofakes3-upload-"}[vsym.Choice("iname", 6)]
 		kl = 0
@@ -137,7 +150,12 @@ func VH_C10() {
 			isFixed = true
 		}
 	}
-	isReal := b1 != "_meta"
+	isReal := false
+	for _, n := range buckets {
+		if n == b1 {
+			isReal = true
+		}
+	}
 
 	op := vsym.Choice("op", 5)
 	accepted := true
